@@ -38,7 +38,7 @@ def required_cells(tier):
         req[f"{e}:cut"] = 2
         req[f"{e}:T=0"] = 1
         req[f"{e}:T>0"] = 1
-    req.update({"tebd:full": 3, "gibbs:full": 3, "state:pure": 4,
+    req.update({"tebd:full": 3, "gibbs:full": 3, "pt:file-backed": 2, "state:pure": 4,
                 "state:rankdef": 4, "strong": 6,
                 "physical:Tempo.compute": 20, "physical:compute_dynamics": 20,
                 "physical:MeanFieldTempo.compute": 10,
@@ -123,8 +123,11 @@ def run_case(case):
             lib.run_tempo(sysd["oq"], oper, corr, rho0, start, dt, nsteps,
                           params, unique)
         else:
+            fb = bool((i // 6) % 3 == 1)
+            if fb:
+                cells.append("pt:file-backed")
             lib.run_pt(sysd["oq"], oper, corr, rho0, start, dt, nsteps,
-                       params, unique)
+                       params, unique, file_backed=fb)
     elif entry in ("meanfield", "meanfield_pt"):
         dims = [[2], [2, 3], [2, 2, 2]][(i // 6) % 3]
         if quick and len(dims) == 3:
